@@ -176,7 +176,16 @@ def run_case(case):
                 if abs(s - float(model.total)) > 1e-6 * float(model.total):
                     out.fail('mismatch:answer_sum', 'answer on %s sums to %r, total %r' % (q[3], s, model.total)); break
     elif target == 'local':
-        eng = mbi.LocalInference(domain, iters=1, marginal_oracle=case['oracle'])
+        oracle = case['oracle']
+        if case['data_seed'] % 3 == 1:
+            # a marginal-oracle object built by the caller (with a total of its own) instead of a name
+            cl_ = [q[3] for q in ms]
+            oracle = (mbi.FactorGraph(domain, cl_, 7.0, convex=False, iters=1) if oracle == 'pairwise' else
+                      mbi.RegionGraph(domain, cl_, 7.0, convex=(oracle == 'convex'), iters=1))
+            if getattr(oracle, 'potentials', None) is None:      # FactorGraph leaves this to its caller
+                oracle.potentials = mbi.CliqueVector.zeros(domain, oracle.cliques)
+            out.classes.append('oracle_object')
+        eng = mbi.LocalInference(domain, iters=1, marginal_oracle=oracle)
         model = eng.estimate(ms, total=given)
         check_total(model.total, 'local')
         if out.ok:
